@@ -25,21 +25,31 @@ import sys
 sys.path.insert(0, os.path.join(os.path.dirname(os.path.abspath(__file__)), "..", "lib"))
 import vlib
 
-# (template body, sink pattern index in sinks.json: 1 = <a href>, 2 = <form action>, signature)
+# UrlTyping cases: every PLACEMENT of a dynamic href on <a> / action on <form> the generator distinguishes, one small
+# package per (placement, form) so that a placement that stops compiling does not take anything else down:
+#   s_<placement>   the expression is a plain string           -> must NOT compile (templ.SafeURL type error)
+#   u_<placement>   the expression is templ.URL(s)             -> must compile, and must sanitise when rendered
+# (body with %s for the expression, sink pattern index in sinks.json: 1 = <a href>, 2 = <form action>, root cause if it fails)
 # HtmlTok lower-cases attribute names, so HREF / Action ARE the href / action attributes for every HTML consumer.
-BAD = {
-    "bad_href": ('<a href={ s }>x</a>', 1, "UrlTyping.PlainStringCompiles"),
-    "bad_action": ('<form action={ s }>x</form>', 2, "UrlTyping.PlainStringCompiles"),
-    "bad_href_conditional": ('<a\n\t\tif s != "" {\n\t\t\thref={ s }\n\t\t}\n\t>x</a>', 1, "UrlTyping.PlainStringCompiles"),
-    "bad_href_attrcase": ('<a HREF={ s }>x</a>', 1, "UrlTyping.AttrNameCase"),
-    "bad_action_attrcase": ('<form Action={ s }>x</form>', 2, "UrlTyping.AttrNameCase"),
+IF_ARM = '<%s\n\t\tif b {\n\t\t\t%s={ %%s }\n\t\t}\n\t>x</%s>'
+ELSE_ARM = '<%s\n\t\tif !b {\n\t\t\tclass="k"\n\t\t} else {\n\t\t\t%s={ %%s }\n\t\t}\n\t>x</%s>'
+NESTED_IF = '<%s\n\t\tif b {\n\t\t\tif b {\n\t\t\t\t%s={ %%s }\n\t\t\t}\n\t\t}\n\t>x</%s>'
+PLACEMENTS = {
+    "href_plain": ('<a href={ %s }>x</a>', 1, None),
+    "href_in_if": (IF_ARM % ("a", "href", "a"), 1, None),
+    "href_in_else": (ELSE_ARM % ("a", "href", "a"), 1, None),
+    "href_in_nested_if": (NESTED_IF % ("a", "href", "a"), 1, None),
+    "action_plain": ('<form action={ %s }>x</form>', 2, None),
+    "action_in_if": (IF_ARM % ("form", "action", "form"), 2, None),
+    "action_in_else": (ELSE_ARM % ("form", "action", "form"), 2, None),
+    "href_attrcase": ('<a HREF={ %s }>x</a>', 1, "UrlTyping.AttrNameCase"),
+    "action_attrcase": ('<form Action={ %s }>x</form>', 2, "UrlTyping.AttrNameCase"),
 }
-TEMPLATE = 'package tc\n\ntempl Bad(s string) {\n\t%s\n}\n'
-RUNNER = ('package main\n\nimport (\n\t"context"\n\t"os"\n\n\ttc "verifharness/c04tc/%s"\n)\n\n'
-          'func main() {\n\tif err := tc.Bad(os.Args[1]).Render(context.Background(), os.Stdout); err != nil {\n\t\tpanic(err)\n\t}\n}\n')
+TEMPLATE = 'package tc\n\ntempl T(s string, b bool) {\n\t%s\n}\n'
 ATTACK = "javascript:alert(1)"
-GOOD = ('package tc\n\ntempl good(s string, u templ.SafeURL) {\n\t<a href={ templ.URL(s) }>x</a>\n\t<a href={ u }>y</a>\n'
-        '\t<form action={ templ.SafeURL(s) }>x</form>\n\t<link href={ s }/>\n}\n')
+# what the typed form is rendered with: attacks (must come out as the failure URL) and harmless URLs (must come out unchanged)
+URL_INPUTS = [ATTACK, "JaVaScRiPt:alert(1)", " javascript:alert(1)", "java\tscript:alert(1)", "javascript&#58;alert(1)", "data:text/html,x",
+              "vbscript:x", "https://example.com/?a=b&c=d", "/relative/path", "mailto:a@b.c", "x\" onclick=\"alert(1)", ""]
 
 
 def run_trace_shards(ck, shard_files, sinks_json, name):
@@ -74,42 +84,78 @@ def run_trace_shards(ck, shard_files, sinks_json, name):
 
 
 def typecheck(ck, hd):
-    """Second clause: a plain string cannot fill href on <a> / action on <form>.
-    Returns [(name, signature, sink index, rendered output)] for the templates that DO compile: they are rendered
-    with a javascript: URL and the output goes through TraceSinksUrl like every other case."""
+    """Second clause (UrlTyping): in every placement a plain string must not compile as href on <a> / action on <form>,
+    and templ.URL(s) must compile.  Returns the trace records [(kind, placement, sink, template, input, output)] of what
+    DID compile, rendered by one runner; they are judged by TraceSinksUrl like every other rendered value."""
     root = os.path.join(hd, "c04tc")
-    for name, (body, _, _) in BAD.items():
-        os.makedirs(os.path.join(root, name))
-        with open(os.path.join(root, name, "x.templ"), "w") as fh:
-            fh.write(TEMPLATE % body)
-    os.makedirs(os.path.join(root, "good"))
-    with open(os.path.join(root, "good", "x.templ"), "w") as fh:
-        fh.write(GOOD)
+    src = {}
+    for name, (body, sink, _) in PLACEMENTS.items():
+        for form, expr in (("s", "s"), ("u", "templ.URL(s)")):
+            d = form + "_" + name
+            os.makedirs(os.path.join(root, d))
+            src[d] = TEMPLATE % (body % expr)
+            with open(os.path.join(root, d, "x.templ"), "w") as fh:
+                fh.write(src[d])
     vlib.templ_generate(root)
-    p = vlib.run(["go", "build", "./c04tc/good"], cwd=hd, check=False)
-    if p.returncode != 0:
-        raise vlib.InfraError("control template with templ.URL / SafeURL-typed href and action does not compile:\n%s" % p.stderr.decode()[-1500:])
-    n, compiled = 0, []
-    for name, (body, sink, sig) in BAD.items():
-        if not os.path.exists(os.path.join(root, name, "x_templ.go")):
-            raise vlib.InfraError("templ generate produced no code for %s" % name)
-        p = vlib.run(["go", "build", "./c04tc/" + name], cwd=hd, check=False)
-        err = p.stderr.decode(errors="replace")
-        if p.returncode == 0:
-            rd = os.path.join(root, "run_" + name)
-            os.makedirs(rd)
-            with open(os.path.join(rd, "main.go"), "w") as fh:
-                fh.write(RUNNER % name)
-            binp = vlib.go_build("./c04tc/run_" + name, "c04tc_" + name, cwd=hd)
-            out = vlib.run([binp, ATTACK]).stdout.decode(errors="replace")
-            compiled.append((name, sig, sink, body, out))
-        elif "templ.SafeURL" not in err:
-            raise vlib.InfraError("%s fails to compile for another reason than the SafeURL typing:\n%s" % (name, err[-1500:]))
-        else:
-            n += 1
-    ck.set("typecheck_templates_rejected", n)
-    ck.set("typecheck_templates", len(BAD))
-    return compiled
+    for d in src:
+        if not os.path.exists(os.path.join(root, d, "x_templ.go")):
+            raise vlib.InfraError("templ generate produced no code for UrlTyping case %s" % d)
+    # one build of all case packages: go build reports the errors per package and keeps going
+    p = vlib.run(["go", "build", "./c04tc/..."], cwd=hd, check=False)
+    errs, cur = {}, None
+    for line in p.stderr.decode(errors="replace").splitlines():
+        if line.startswith("# verifharness/c04tc/"):
+            cur = line.split("/")[-1].split()[0]
+            errs[cur] = []
+        elif cur is not None:
+            errs[cur].append(line)
+    if p.returncode != 0 and not errs:
+        raise vlib.InfraError("go build of the UrlTyping cases failed without naming a package:\n%s" % p.stderr.decode()[-1500:])
+    unknown = set(errs) - set(src)
+    if unknown:
+        raise vlib.InfraError("go build reported packages that are no UrlTyping case: %s" % unknown)
+    ok = [d for d in src if d not in errs]
+    rejected = 0
+    for name, (body, sink, cause) in PLACEMENTS.items():
+        sd, ud = "s_" + name, "u_" + name
+        if sd in errs:
+            if not any("templ.SafeURL" in l for l in errs[sd]):
+                raise vlib.InfraError("%s fails to compile for another reason than the SafeURL typing:\n%s" % (sd, "\n".join(errs[sd])[-1500:]))
+            rejected += 1
+        if ud in errs:
+            # the form that is CORRECT by the property does not compile: that is a finding about this placement
+            ck.violation(cause or "UrlTyping.SafeFormRejected." + name,
+                         "a template that fills %s through templ.URL does not compile in placement %s: %s" % (
+                             "href on <a>" if sink == 1 else "action on <form>", name, " | ".join(l.strip() for l in errs[ud][:2])),
+                         {"template": src[ud], "compiler": errs[ud][:6], "reproduce": "templ generate the template and go build it against the repository"})
+    ck.set("typecheck_placements", len(PLACEMENTS))
+    ck.set("typecheck_string_forms_rejected", rejected)
+    ck.set("typecheck_safe_forms_compiled", len([d for d in ok if d.startswith("u_")]))
+    if not ok:
+        return []
+    # one runner renders everything that compiled
+    rd = os.path.join(root, "zz_runner")
+    os.makedirs(rd)
+    imports = "\n".join('\t%s "verifharness/c04tc/%s"' % (d, d) for d in ok)
+    calls = "\n".join('\trun("%s", %s.T, %s)' % (d, d, "attack" if d.startswith("s_") else "inputs") for d in ok)
+    main_go = ('package main\n\nimport (\n\t"bytes"\n\t"context"\n\t"encoding/json"\n\t"os"\n\n\t"github.com/a-h/templ"\n%s\n)\n\n'
+               'var attack = []string{%s}\nvar inputs = []string{%s}\n\n'
+               'func run(name string, f func(string, bool) templ.Component, in []string) {\n\tenc := json.NewEncoder(os.Stdout)\n'
+               '\tfor _, s := range in {\n\t\tvar b bytes.Buffer\n\t\tif err := f(s, true).Render(context.Background(), &b); err != nil {\n\t\t\tpanic(err)\n\t\t}\n'
+               '\t\tenc.Encode(map[string]string{"case": name, "in": s, "out": b.String()})\n\t}\n}\n\nfunc main() {\n%s\n}\n') % (
+                   imports, json.dumps(ATTACK), ", ".join(json.dumps(x) for x in URL_INPUTS), calls)
+    with open(os.path.join(rd, "main.go"), "w") as fh:
+        fh.write(main_go)
+    binp = vlib.go_build("./c04tc/zz_runner", "c04tc_runner", cwd=hd)
+    recs = []
+    for line in vlib.run([binp]).stdout.decode(errors="replace").splitlines():
+        r = json.loads(line)
+        name = r["case"][2:]
+        recs.append((r["case"][0], name, PLACEMENTS[name][1], src[r["case"]], r["in"], r["out"]))
+    want = len([d for d in ok if d.startswith("s_")]) + len(URL_INPUTS) * len([d for d in ok if d.startswith("u_")])
+    if len(recs) != want:
+        raise vlib.InfraError("the UrlTyping runner rendered %d of %d cases" % (len(recs), want))
+    return recs
 
 
 def main():
@@ -148,11 +194,19 @@ def main():
 
     # --- harness ---------------------------------------------------------------------------------------------------
     hd = vlib.harness_dir()
-    vlib.templ_generate(os.path.join(hd, "c04"))
-    binp = vlib.go_build("./c04", "c04")
-    vlib.log("harness built")
     compiled = typecheck(ck, hd)
-    vlib.log("typecheck clause done")
+    vlib.log("typecheck clause done: %d rendered typing cases" % len(compiled))
+    try:
+        vlib.templ_generate(os.path.join(hd, "c04"))
+        binp = vlib.go_build("./c04", "c04")
+    except vlib.InfraError as e:
+        if ck.violations:
+            # the typing clause already failed on the real generator and the gallery (unconditional typed placements only) does
+            # not build with it: report what was found, the remaining steps cannot run
+            ck.notes.append("harness gallery does not build against this tree; direct runs and trace validation skipped: %s" % str(e)[-400:])
+            ck.finish()
+        raise
+    vlib.log("harness built")
     outdir = os.path.join(sc, "url")
     os.makedirs(outdir)
     nshards = 8
@@ -186,26 +240,47 @@ def main():
            999999992: ("javascript:alert(1)", '<a href="about:blank">x</a>', "not-fixed"),
            999999993: ('x"y', '<a href="x"y">x</a>', "structure"),
            999999994: ("java&#9;script:alert(1)", '<a href="java&#9;script:alert(1)">x</a>', "not-fixed")}
-    TC0 = 999990000
+    TC0 = 999900000
+    spread = [json.loads(l) for l in p.stdout.decode(errors="replace").splitlines() if '"kind":"spread"' in l]
+    spread_attack = [r for r in spread if r["type"] == "string" and r["in"] == ATTACK]
+    if len(spread) != 4 or len(spread_attack) != 1:
+        raise vlib.InfraError("harness did not report the spread-map renders: %s" % spread)
+    SP = TC0 - 1
     with open(shards[0], "a") as fh:
         for cid, (i, o, _) in CAN.items():
             fh.write(json.dumps({"id": cid, "sink": 1, "in": sy(i), "out": sy(o)}) + "\n")
-        # plain-string href/action templates that compiled, rendered with a javascript: URL
-        for k, (name, sig, sink, body, out) in enumerate(compiled):
-            fh.write(json.dumps({"id": TC0 + k, "sink": sink, "in": sy(ATTACK), "out": sy(out)}) + "\n")
+        # the UrlTyping cases that compiled, as rendered by the runner
+        for k, (form, name, sink, tmpl, i, o) in enumerate(compiled):
+            fh.write(json.dumps({"id": TC0 + k, "sink": sink, "in": sy(i), "out": sy(o)}) + "\n")
+        fh.write(json.dumps({"id": SP, "sink": 1, "in": sy(ATTACK), "out": sy(spread_attack[0]["out"])}) + "\n")
     specfails, tdrift, validated = run_trace_shards(ck, shards, sinks_json, "TraceSinksUrl (real rendered href/action)")
     for cid, (_, _, want) in CAN.items():
         if specfails.pop(cid, None) != want:
             raise vlib.InfraError("binding self-test failed: corrupted trace record %d was not rejected as %s" % (cid, want))
-    validated -= len(CAN) + len(compiled)
-    for k, (name, sig, sink, body, out) in enumerate(compiled):
-        if specfails.pop(TC0 + k, None) != "unsafe-pass":
-            raise vlib.InfraError("template %s compiles with a plain string but its rendering %r is not an unsafe pass for the trace spec" % (name, out))
-        ck.violation(sig, "a template whose %s expression is a plain string compiles and renders %s: the value reaches the attribute "
-                          "without templ.URL (HtmlTok reads it as the %s attribute; UrlScheme resolves scheme javascript)" % (
-                              body.split("=")[0].split()[-1] if "=" in body else name, out.strip(), "href" if sink == 1 else "action"),
-                     {"template": TEMPLATE % body, "input": ATTACK, "output": out,
-                      "reproduce": "templ generate the template, go build, render Bad(%r)" % ATTACK})
+    validated -= len(CAN) + len(compiled) + 1
+    seen = set()
+    for k, (form, name, sink, tmpl, i, o) in enumerate(compiled):
+        why = specfails.pop(TC0 + k, None)
+        cause = PLACEMENTS[name][2]
+        what = "href on <a>" if sink == 1 else "action on <form>"
+        if form == "s":
+            if why != "unsafe-pass":
+                raise vlib.InfraError("UrlTyping case s_%s compiles with a plain string but its rendering %r is %s for the trace spec" % (name, o, why))
+            ck.violation(cause or "UrlTyping.PlainStringCompiles." + name,
+                         "a template that fills %s with a plain string compiles in placement %s and renders %s: the value reaches the attribute "
+                         "without templ.URL (HtmlTok reads the attribute, UrlScheme resolves scheme javascript)" % (what, name, o.strip()),
+                         {"template": tmpl, "input": i, "output": o, "reproduce": "templ generate the template, go build, render T(%r, true)" % i})
+        elif why is not None and (name, why) not in seen:
+            seen.add((name, why))
+            ck.violation("UrlTyping.SafeFormNotSanitised." + name,
+                         "placement %s with templ.URL(s) renders %s for s = %r: %s" % (name, o.strip(), i, why),
+                         {"template": tmpl, "input": i, "output": o})
+    # a spread map on <a> whose "href" is a plain string
+    if specfails.pop(SP, None) == "unsafe-pass":
+        ck.violation("UrlTyping.SpreadAttributeHref",
+                     "<a { attrs... }> with attrs = templ.Attributes{\"href\": %r} renders %s: a plain string fills href without templ.URL" % (ATTACK, spread_attack[0]["out"].strip()),
+                     {"input": ATTACK, "output": spread_attack[0]["out"], "reproduce": "render <a { templ.Attributes{\"href\": s}... }>x</a>"})
+    ck.set("spread_map_href_renders", [{"value_type": r["type"], "value": r["in"], "out": r["out"]} for r in spread])
     ck.set("binding_selftest", "%d corrupted records rejected" % len(CAN))
     if validated != s["trace_lines"]:
         raise vlib.InfraError("trace validation consumed %d of %d logged cases" % (validated, s["trace_lines"]))
